@@ -135,10 +135,31 @@ def run(ctx):
     # (d<N>n<budget>: a deep search of the same position cut by a node budget comes first — seeded change r6C12a needs a root entry of
     # depth >= 8 left by an INTERRUPTED search)
     hseqs = "d3;d4;d4,d3;d2,d4,d3;d3,d3;d1,d2,d4,d3;d3,d4;d5,d3;d14n25000,d3;d14n70000,d3,d4" + (";d6,d3;d5,d4,d3;d16n300000,d3" if ctx["tier"] == "thorough" else "")
-    chunks = [hfens[i::C.NPROC] for i in range(C.NPROC)]
+    # the committed mate corpus additionally with a SWEEP of the budget of the earlier, interrupted search (a geometric grid of 50 node
+    # budgets from 1 000 to 300 000, then depth 3): what an interrupted deep search leaves in the cache depends on where it was cut
+    grid = sorted(set(int(1000 * 1.12 ** i) for i in range(51)))
+    sweep = ";".join("d20n%d,d3" % b_ for b_ in grid)
+    # ... and cut EXACTLY at the iteration boundaries (budget = node count at the end of iteration k, +-1: the children carry the
+    # results of iteration k while the root entry is still that of iteration k-1 — seeded change r6C12a manifests only there)
+    small_corpus = [f for f in fens if sum(ch.isalpha() for ch in f.split()[0]) <= 12]
+    probe = S.run_engine([{"group": "probe", "fen": f, "moves": [], "specs": ["d14n400000q"]} for f in small_corpus])
+    bjobs = []
+    for f, e in zip(small_corpus, probe):
+        ends = []
+        for l in (e["results"][0].get("lines", []) if e["results"] else []):
+            di = S.parse_info(l)
+            if di and "depth" in di and "nodes" in di:
+                ends.append(di["nodes"])
+        bs_ = sorted(set(b_ for n_ in ends[2:] for b_ in (n_ - 1, n_, n_ + 1) if b_ > 0))
+        if bs_:
+            bjobs.append((f, ";".join("d20n%d,d3" % b_ for b_ in bs_) + ";" + ";".join("d20n%d,d4,d3" % b_ for b_ in bs_[1::3])))
+    jobs = [(f, hseqs) for f in hfens] + [(f, sweep) for f in small_corpus] + bjobs
+    hstats_boundary = sum(sq_.count(";") + 1 for _, sq_ in bjobs)
+    chunks = [jobs[i::C.NPROC] for i in range(C.NPROC)]
 
     def hunt(chunk):
-        p_ = C.subprocess.run([C.ENGINE, "verif", "matehunt"], input="".join("%s | %s\n" % (f, hseqs) for f in chunk), capture_output=True, text=True, timeout=7000)
+        p_ = C.subprocess.run([C.ENGINE, "verif", "matehunt"], input="".join("%s | %s\n" % (f, sq_) for f, sq_ in chunk), capture_output=True, text=True, timeout=7000)
+        chunk = [f for f, _ in chunk]
         res = [json.loads(l) for l in p_.stdout.splitlines() if l.startswith("{")]
         return list(zip(chunk, res)) if len(res) == len(chunk) else None
     with ThreadPoolExecutor(max_workers=C.NPROC) as ex:
@@ -184,6 +205,7 @@ def run(ctx):
                                                "search_index": v["k"], "chosen": v["move"], "problem": what,
                                                "replay_cmd": "printf '%s | %s\\n' | %s verif matehunt" % (f, v["seq"], C.ENGINE)})
                     violations.append({"replay": rp})
+    hstats["iteration_boundary_cut_sequences"] = hstats_boundary
     stats["hunt"] = hstats
     cov.update(stats)
     cov["evaluations"] = sum(len(c["specs"]) for c in cases) + hstats["positions"]
